@@ -176,14 +176,14 @@ def seq_case(name, rng: random.Random, length=12, obs_every=True, big=0.08, allo
     return "\n".join(lines) + "\n"
 
 
-def crash_case(name, rng: random.Random, length=5, big=0.15, kt=None):
+def crash_case(name, rng: random.Random, length=5, big=0.15, kt=None, sync_only=False):
     """Short write-heavy histories for kill-at-k / fail-at-k; no obs lines (they cost nothing in
     the model but the harness dumps after the kill anyway)."""
     kt = kt or rng.choice(["bytes", "bytes", "string", "u32", "i64"])
     n = rng.choice([1, 2, 2, 3, 4, 100])
     keys = key_pool(kt, rng, rng.choice([2, 3]))
     contents = content_pool(rng, rng.choice([2, 3]), big)
-    lines = [f"case {name}", f"cfg kt={kt} n={n} sync=1", "open"]
+    lines = [f"case {name}", f"cfg kt={kt} n={n} sync={1 if sync_only else rng.choice([1, 1, 0])}", "open"]
     for _ in range(length):
         r = rng.random()
         k = hexs(rng.choice(keys))
